@@ -25,8 +25,10 @@ func slotOp(c *Ctx, line string) {
 	case "slot", "!slot":
 		k := unhx(w[1])
 		c.Emit(line, fmt.Sprint(cmds.Slot(k)), strings.Contains(k, "{"))
-	case "keys":
+	case "keys", "!keys":
 		// keys <init|noslot> k1 k2 ... : Arbitrary().Keys(k1).Keys(k2)... on a cluster / non-cluster builder
+		// (!keys: judged by the specification: a cluster builder accepts iff all keys share one slot, and then the
+		// command carries that slot; a non-cluster builder always accepts)
 		init := cmds.InitSlot
 		if w[1] == "noslot" {
 			init = cmds.NoSlot
@@ -45,6 +47,13 @@ func slotOp(c *Ctx, line string) {
 			return fmt.Sprint(cc.Slot())
 		}()
 		c.Hit("keys:" + w[1] + ":" + map[bool]string{true: "panic", false: "ok"}[ans == "panic"])
+		if w[0] == "!keys" && ans != "panic" {
+			if w[1] == "noslot" {
+				ans = "accept"
+			} else {
+				ans = "accept " + ans
+			}
+		}
 		c.Emit(line, ans, len(w) > 3)
 	}
 }
@@ -106,5 +115,22 @@ func runSlot(c *Ctx) {
 			init = "noslot"
 		}
 		slotOp(c, "keys "+init+" "+strings.Join(ks, " "))
+		slotOp(c, "!keys "+init+" "+strings.Join(ks, " "))
+	}
+	// slot 0 is a slot like any other: keys that hash to 0 combined with keys of other slots, in both orders
+	var zero []string
+	for i := 0; len(zero) < 3 && i < 1<<20; i++ {
+		if k := fmt.Sprintf("z%d", i); cmds.Slot(k) == 0 {
+			zero = append(zero, hx(k))
+		}
+	}
+	for _, z := range zero {
+		other := hx(randKey() + "x")
+		for _, init := range []string{"init", "noslot"} {
+			for _, ks := range [][]string{{z, other}, {other, z}, {z, z}, {z, zero[0], other}, {z}} {
+				slotOp(c, "keys "+init+" "+strings.Join(ks, " "))
+				slotOp(c, "!keys "+init+" "+strings.Join(ks, " "))
+			}
+		}
 	}
 }
